@@ -1,6 +1,7 @@
 import Bmc.Driver.Prim
 import Bmc.Driver.DecBasic
 import Bmc.Driver.DecCore
+import Bmc.Driver.Rt
 open Bmc.Driver
 
 def decTables : List (String × DecFn) := decTableBasic ++ decTableCore
@@ -20,6 +21,7 @@ def step (line : String) : String :=
   | id :: _cls :: "prim" :: fn :: args => s!"{id} {evalPrim fn args}"
   | id :: _cls :: "str" :: args => s!"{id} {evalStr args}"
   | id :: _cls :: "dec" :: args => s!"{id} {evalDec args}"
+  | id :: _cls :: "rt" :: args => s!"{id} {evalRt args}"
   | id :: _ => s!"{id} bad-op"
   | [] => ""
 
